@@ -135,6 +135,23 @@ def rule_b(ctx, idx, A, errcls):
             extra = ""
             if stores:
                 extra = " (`%s` is set but never consulted)" % stores[0].meta.get("attr")
+                # the flag may be consulted where references are resolved instead: ResultParameter.clean raising the
+                # dedicated error for a running command.  That protects only if no resolved command leaves clean untested.
+                rp = idx.cls("mpilot.params", "ResultParameter")
+                cl = rp.methods.get("clean") if rp is not None else None
+                if cl is not None:
+                    ccfg = K.cfg_of(idx, cl)
+                    flags = {s_.meta.get("attr") for s_ in stores}
+                    tests = [t for t in ccfg.find("test") if isinstance(t.ast, ast.Attribute) and t.ast.attr in flags]
+                    tests = [t for t in tests if any(is_err_raise(x) for x in ccfg.reachable([m for m, l in t.succ if l == "true"], avoid={m for m, l in t.succ if l == "false"}))]
+                    if tests:
+                        rets = [r_ for r_ in ccfg.find("return") if r_ in ccfg.reachable()]
+                        loose = [r_ for r_ in rets if not any(ccfg.dominates(t, r_) for t in tests)]
+                        if loose:
+                            ctx.violate("C14.b", con, K.rel(fi), fi.node.lineno,
+                                        "Command.run no longer tests `%s`; ResultParameter.clean does, but its return at line %d is reached without that test: a cycle through such a reference re-enters run() until the interpreter stack overflows" % (sorted(flags)[0], loose[0].line))
+                            return
+                        raise AnalysisError("C14.b: the in-progress test has moved from Command.run into ResultParameter.clean (it precedes every return there); whether every re-entry of run() passes through that test is outside this rule")
             ctx.violate(
                 "C14.b", con, K.rel(fi), fi.node.lineno,
                 "Command.run tests no in-progress flag before calling execute%s: a reference cycle re-enters run() until the interpreter stack overflows" % extra,
@@ -197,6 +214,43 @@ def rule_c(ctx, idx, A, errcls):
     ctx.violate("C14.c", con, K.rel(fi), fi.node.lineno, "Program.run contains no loop over the command table that starts commands")
 
 
+def _after_exclusion_loop(idx, m, x, attr):
+    """`x` reads <recv>.<attr> after a top-level `while isinstance(<recv>, C):` loop without break, where C covers every command
+    class that computes `attr`: the receiver is then none of them, so the read is of plain data.  The loop itself must stop on
+    a reference loop: a membership test on a collection it adds to on every round, raising or leaving when the test hits.
+    Returns False when the shape is different; raises AnalysisError when the shape matches but the loop's guard is not found."""
+    recv = x.value if isinstance(x, ast.Attribute) else x.args[0]
+    if not isinstance(recv, ast.Name):
+        return False
+    body = m.node.body
+    pos = next((i for i, st in enumerate(body) if any(x is y for y in ast.walk(st))), None)
+    if pos is None:
+        return False
+    for st in body[:pos]:
+        if not (isinstance(st, ast.While) and isinstance(st.test, ast.Call) and isinstance(st.test.func, ast.Name) and st.test.func.id == "isinstance" and len(st.test.args) == 2
+                and isinstance(st.test.args[0], ast.Name) and st.test.args[0].id == recv.id and not st.orelse):
+            continue
+        if any(isinstance(y, ast.Break) for y in ast.walk(st)):
+            continue
+        if any(isinstance(z, ast.Assign) and any(isinstance(t, ast.Name) and t.id == recv.id for t in z.targets) for s2 in body[body.index(st) + 1:pos + 1] for z in ast.walk(s2)):
+            continue
+        cq = idx.qualname(m.module, st.test.args[1], m)
+        computing = [d2.cls for d2 in K.table(idx) if (idx.find_method(d2.cls, attr) is not None and idx.find_method(d2.cls, attr).cls is not K.anchors(idx).command)]
+        if not all(any(c_.qual == cq for c_ in idx.mro(c2) if hasattr(c_, "qual")) for c2 in computing):
+            continue
+        tests = [y for y in ast.walk(st) if isinstance(y, ast.Compare) and len(y.ops) == 1 and isinstance(y.ops[0], ast.In) and isinstance(y.comparators[0], ast.Name)]
+        for t in tests:
+            coll = t.comparators[0].id
+            key = K.src(t.left)
+            adds = [y for y in st.body if isinstance(y, ast.Expr) and isinstance(y.value, ast.Call) and isinstance(y.value.func, ast.Attribute) and y.value.func.attr in ("add", "append")
+                    and isinstance(y.value.func.value, ast.Name) and y.value.func.value.id == coll and y.value.args and K.src(y.value.args[0]) == key]
+            stops = [y for y in st.body if isinstance(y, ast.If) and y.test is t and y.body and isinstance(y.body[-1], (ast.Raise, ast.Return))]
+            if adds and stops and st.body.index(stops[0]) < st.body.index(adds[0]):
+                return True
+        raise AnalysisError("C14.d: `%s` of %s walks its references in a loop; no visited-guard of the recognised form (test, stop, then record, each round) was found in it" % (attr, m.qualname))
+    return False
+
+
 def rule_d(ctx, idx, A):
     """Validation reads attributes of referenced commands before anything runs (before the re-entry guard can fire):
     they must not recurse along references."""
@@ -227,6 +281,8 @@ def rule_d(ctx, idx, A):
                     follows.append(x)
                 if isinstance(x, ast.Call) and isinstance(x.func, ast.Name) and x.func.id == "getattr" and len(x.args) >= 2 and isinstance(x.args[1], ast.Constant) and x.args[1].value == attr and not (isinstance(x.args[0], ast.Name) and x.args[0].id == sn):
                     follows.append(x)
+            if follows:
+                follows = [x for x in follows if not _after_exclusion_loop(idx, m, x, attr)]
             con = "%s::computed(%s)" % (d.key, attr)
             ctx.ob("C14.d", con, d.module.rel, m.node.lineno, not follows,
                    "`%s` is computed without consulting other commands" % attr if not follows else
